@@ -157,9 +157,10 @@ structure HookCh where
   sendAfterClose : Bool := false     -- would be a Go panic
   deriving DecidableEq, Repr
 
+/-- the slot `p.pshks` holds at most one channel; whoever swaps it out owns it and closes it -/
 structure HookSt where
-  cur : Option Nat := none           -- index of the channel in the slot (none: emptypshks)
-  chans : List HookCh := []
+  done : List HookCh := []           -- channels swapped out so far, in order of creation
+  cur : Option HookCh := none        -- the channel in the slot (none: emptypshks)
   deriving DecidableEq, Repr
 
 /-- atomic steps: the `Swap`s of SetPubSubHooks and of `_background`'s cleanup -/
@@ -168,20 +169,45 @@ inductive HookOp
   | swapEmpty (err : Option String)   -- Swap(emptypshks); (old.close <- err)? ; close(old.close)
   deriving DecidableEq, Repr
 
-def closeCh (chs : List HookCh) (i : Nat) (err : Option String) : List HookCh :=
-  chs.mapIdx fun j c => if j == i then
-    let c := match err with
-      | some e => { c with errs := c.errs ++ [e], sendAfterClose := c.sendAfterClose || c.closes > 0 }
-      | none => c
-    { c with closes := c.closes + 1 } else c
+/-- `old.close <- err` (optional) then `close(old.close)` -/
+def HookCh.finish (c : HookCh) (err : Option String) : HookCh :=
+  let c := match err with
+    | some e => { c with errs := c.errs ++ [e], sendAfterClose := c.sendAfterClose || c.closes > 0 }
+    | none => c
+  { c with closes := c.closes + 1 }
 
 def hookStep (s : HookSt) : HookOp → HookSt
-  | .swapNew =>
-    let chans := match s.cur with | some i => closeCh s.chans i none | none => s.chans
-    { cur := some chans.length, chans := chans ++ [{}] }
+  | .swapNew => { done := s.done ++ (s.cur.map (·.finish none)).toList, cur := some {} }
   | .swapEmpty err =>
     match s.cur with
-    | some i => { cur := none, chans := closeCh s.chans i err }
+    | some c => { done := s.done ++ [c.finish err], cur := none }
     | none => s
+
+def HookSt.all (s : HookSt) : List HookCh := s.done ++ s.cur.toList
+
+/-! ### specification of an end-to-end run: what a Receive callback must see -/
+
+/-- the server's publish log -/
+inductive Pub | publish (channel payload : String) | spublish (channel payload : String)
+  deriving DecidableEq, Repr
+
+/-- glob restricted to the shapes the end-to-end suite uses: literal, or literal prefix followed by `*` -/
+def globMatch (p s : String) : Bool :=
+  if p.endsWith "*" then s.startsWith (p.dropEnd 1).toString else p == s
+
+/-- insertion sort of the patterns (the server walks a connection's patterns in sorted order) -/
+def sortStrs (l : List String) : List String :=
+  l.foldl (fun acc x => (acc.filter (· < x)) ++ [x] ++ (acc.filter (fun y => !(y < x)))) []
+
+/-- what a subscription established before the first publish and ended after the last one must
+    receive, exactly once and in server order: kind 0 = SUBSCRIBE (channel match), 1 = PSUBSCRIBE
+    (one message per matching pattern), 2 = SSUBSCRIBE -/
+def specLog (kind : Nat) (chans : List String) (log : List Pub) : List Msg :=
+  log.flatMap fun
+    | .publish ch m =>
+      if kind == 0 then (if chans.contains ch then [⟨"", ch, m⟩] else [])
+      else if kind == 1 then ((sortStrs chans.eraseDups).filter (globMatch · ch)).map fun p => ⟨p, ch, m⟩
+      else []
+    | .spublish ch m => if kind == 2 && chans.contains ch then [⟨"", ch, m⟩] else []
 
 end Rv.Subs
